@@ -392,6 +392,9 @@ func runC04(e *Env) {
 				lb := NewLinkBuffer()
 				buf, _ := lb.Malloc(n)
 				copy(buf, d)
+				if e.Bool() {
+					lb.Flush() // a producer may hand over a buffer it has already submitted
+				}
 				sender.Append(lb)
 				err = sender.Flush()
 			}
